@@ -1,5 +1,15 @@
 package gosym
 
+import (
+	"fmt"
+	"go/types"
+	"os"
+
+	"golang.org/x/tools/go/ssa"
+)
+
+var debugSched = os.Getenv("VERIF_DEBUG_SCHED") != ""
+
 // Goroutines of the program under analysis run as cooperative threads: each has its own
 // interpreter call stack and runs on its own host goroutine, but only one runs at a time (hand-off
 // through channels), so the executor state needs no locking. A thread gives up control when it
@@ -32,6 +42,11 @@ type thrEvt struct {
 type threadKill struct{}
 
 func (ex *Exec) spawn(fv *FuncV, args []Value) {
+	if ex.initMode > 0 {
+		// background goroutines started by package initialisers (janitors of package-level pools)
+		// are not run: initialisers execute once per worker, not once per path
+		return
+	}
 	ex.thrSeq++
 	ex.threads = append(ex.threads, &thread{id: ex.thrSeq, fv: fv, args: args})
 }
@@ -195,9 +210,12 @@ func (ex *Exec) runGoroutines() {
 // while the preemption budget lasts and another thread could run, the current thread may be
 // switched out here.
 func (ex *Exec) preemptPoint() {
-	if !ex.explore || ex.preemptLeft <= 0 || len(ex.guards) > 0 || ex.initMode > 0 {
+	if !ex.explore || ex.preemptLeft <= 0 || ex.initMode > 0 {
 		return
 	}
+	// never inside a merged region: the decision numbering must not depend on whether a branch was
+	// merged (symbolic run) or concrete (replay)
+	ex.noGuard("preemption point")
 	others := 0
 	for _, t := range ex.runnable() {
 		if t != ex.cur {
@@ -252,5 +270,20 @@ func (ex *Exec) chooseSched(n int) int {
 	if k >= n {
 		k = n - 1
 	}
+	if debugSched {
+		fmt.Fprintf(os.Stderr, "SCHED #%d n=%d -> %d const=%v at %s\n", ex.schedSeq, n, k, v.IsConst(), ex.whereShort())
+	}
 	return k
+}
+
+func (ex *Exec) lookupMethodByName(t types.Type, name string) *ssa.Function {
+	ms := ex.prog.MethodSets.MethodSet(t)
+	for i := 0; i < ms.Len(); i++ {
+		if ms.At(i).Obj().Name() == name {
+			if fn := ex.prog.MethodValue(ms.At(i)); fn != nil {
+				return fn
+			}
+		}
+	}
+	panic(ex.unsupported("method %s not found on %s", name, t))
 }
